@@ -23,7 +23,8 @@ RULE = (
     "prepend_sibling: sibling order != creation order)?). Oracle 1 (mirror): to_dict_list() is compared "
     "with a dict structure built directly from an independent walk (one dict per node, child order, data = str(data) "
     "or mapper output, data_id present iff it differs from hash(data), children key exactly for inner nodes). Oracle "
-    "2 (round trip): Tree.from_dict() reproduces shape, order, data, explicit data_ids and the clone partition. "
+    "2 (round trip): Tree.from_dict() reproduces shape, order, data, explicit data_ids and the clone partition, and hands "
+    "the deserialize mapper the parent node of each item. "
     "Further: string trees of a Tree subclass that overrides serialize_mapper (the save-format mapper is not the "
     "default of the dict form), and trees of DictWrapper objects with the library's DictWrapper.serialize_mapper "
     "(mirror, then children are removed and the form must mirror the new shape; the wrapped dicts stay unmodified). "
@@ -227,7 +228,13 @@ def run(case, rec):
     if case.get("json"):
         obj = json.loads(dumped)
         rec.cls("json-roundtrip")
-    dmap = deser_mapper_guidkey if style == "guidkey" else deser_mapper
+    dmap0 = deser_mapper_guidkey if style == "guidkey" else deser_mapper
+    seen_parents = []
+
+    def dmap(parent, item):
+        # the mapper is handed the (already created) parent node of the item it is asked to convert
+        seen_parents.append((None if parent.is_system_root() else getattr(parent.data, "name", parent.data), item.get("name", item.get("data"))))
+        return dmap0(parent, item)
     keep = json.loads(dumped) if style != "guidkey" else None  # what the structure looked like before from_dict
     try:
         t2 = Tree.from_dict(obj, mapper=dmap) if flav == "obj" else Tree.from_dict(obj)
@@ -235,6 +242,11 @@ def run(case, rec):
         rec.fail("from_dict:raises", repr(e))
         return
     rec.evals += 1
+    if flav == "obj":
+        exp_parents = [((None if w.parent[id(n)] is None else w.parent[id(n)].data.name), n.data.name) for n in w.pre]
+        if sorted(seen_parents, key=repr) != sorted(exp_parents, key=repr):
+            rec.fail("from_dict:mapper-got-wrong-parent", {"got": seen_parents[:8], "exp": exp_parents[:8]})
+            return
     if keep is not None and json.loads(json.dumps(obj)) != keep:
         rec.fail("from_dict:modified-the-structure-it-was-given", {"before": keep, "after": obj})
         return
